@@ -6,3 +6,5 @@ timeout 1200 coqc -Q ../coq/theories SA ../coq/theories/Extract/Extract.v > extr
 test -f samodel.ml
 rm -f samodel.mli
 timeout 1200 ocamlfind ocamlopt -w -a -package zarith -linkpkg samodel.ml driver.ml entries.ml -o samodel
+# stamp: digest of the sources this binary was made from (checked by harness/common.py:coq_gate on every run)
+cd .. && python3 -c "import sys; sys.path.insert(0,'.'); from harness import common as C; open('ocaml/samodel.stamp','w').write(C.model_sources_digest())"
